@@ -18,7 +18,10 @@ from .. import alphabet as A, canon, ops, report
 ID = "C13"
 VECS = [[0, 0], [1, 0], [0, 1], [1, 1], [2, 0]]
 QUANTILES = [0.0, 0.25, 0.5, 0.75, 1.0]
-POLICIES = ["eg0", "ucb", "sm", "ts", "pop", "lg", "lucb", "lts1"]
+POLICIES = ["eg0", "ucb", "sm", "ts", "pop", "lg", "lucb", "lts1", "lg_s", "lucb_s"]
+# linear policies with scale=True: the learned state of an arm then includes its fitted StandardScaler
+SCALED = {"lg_s": ["LinGreedy", {"epsilon": 0, "l2_lambda": 1, "scale": True}],
+          "lucb_s": ["LinUCB", {"alpha": 1, "l2_lambda": 1, "scale": True}]}
 ARMS = [0, 1, 2]          # label 0 on purpose: a truth-value test on a label or on 'warm_started_by' shows
 NEW_ARM = 9
 
@@ -54,7 +57,8 @@ def arm_state(mab, arm):
     name = type(imp).__name__
     if name == "_Linear":
         m = imp.arm_to_model[arm]
-        return tuple(None if a is None else (a.shape, a.tobytes()) for a in (m.beta, m.A, m.A_inv, m.Xty))
+        # the whole regression object but its generator: beta, A, A_inv, Xty, hyper-parameters, fitted scaler
+        return tuple(canon.tokens(m, skip_generators=True))
     if name in ("_EpsilonGreedy", "_Popularity"):
         return (float(imp.arm_to_sum[arm]), float(imp.arm_to_count[arm]), float(imp.arm_to_expectation[arm]))
     if name == "_UCB1":
@@ -199,7 +203,7 @@ def step(mab, O, W, op, assign):
 
 
 def initial(ln, sub, assign, seed):
-    cfg = A.config(ln, "none", arms=ARMS, seed=seed)
+    cfg = A.config(SCALED.get(ln, ln), "none", arms=ARMS, seed=seed)
     cf = ops.is_context_free(cfg)
     trained = [a for i, a in enumerate(ARMS) if sub >> i & 1]
     d, r, x = [], [], []
